@@ -863,6 +863,7 @@ int
 HXPendaccess(accrec_t *access_rec)
 {
     filerec_t *file_rec; /* file record */
+    int        close_failed = FALSE;
     int        ret_value = SUCCEED;
 
     /* validate argument */
@@ -874,9 +875,10 @@ HXPendaccess(accrec_t *access_rec)
     if (BADFREC(file_rec))
         HGOTO_ERROR(DFE_ARGS, FAIL);
 
-    /* close the file pointed to by this access rec */
+    /* close the file pointed to by this access rec (a failure is reported once the
+       access record has been let go of, so that the file can still be closed) */
     if (HXPcloseAID(access_rec) == FAIL)
-        HGOTO_ERROR(DFE_CANTCLOSE, FAIL);
+        close_failed = TRUE;
 
     /* update file and access records */
     if (HTPendaccess(access_rec->ddid) == FAIL)
@@ -887,6 +889,10 @@ HXPendaccess(accrec_t *access_rec)
 
     /* free the access record */
     HIrelease_accrec_node(access_rec);
+    access_rec = NULL;
+
+    if (close_failed)
+        HGOTO_ERROR(DFE_CANTCLOSE, FAIL);
 
 done:
     if (ret_value == FAIL) { /* Error condition cleanup */
@@ -927,7 +933,8 @@ HXPcloseAID(accrec_t *access_rec)
 
     if (--(info->attached) == 0) {
         if (info->file_open)
-            HI_CLOSE(info->file_external);
+            if (HI_CLOSE(info->file_external) == FAIL)
+                ret_value = FAIL; /* buffered data may not have reached the external file */
         free(info->extern_file_name);
         free(info);
         access_rec->special_info = NULL;
